@@ -9,8 +9,6 @@ CONSTANTS Bug = "none"  MaxLen = 4
  Updatable = {"stream_encoder", "easy_encoder", "stream_encoder_mt", "raw_encoder", "block_encoder"}
  OneShots = {"easy_buffer_encode", "stream_buffer_encode", "raw_buffer_encode", "block_buffer_encode",
    "stream_buffer_decode", "raw_buffer_decode"}
- OpNames = {"Init", "CodeSome", "CodeAll", "Update", "End", "StrToFilters", "PropsDecode", "BlockHeaderDecode",
-   "FilterFlagsDecode", "FiltersFree", "FiltersCopy", "StrFromFilters", "StrListFilters", "FreeStr", "IndexInit",
-   "IndexBufferDecode", "IndexAppend", "IndexEnd", "IndexCat", "IndexDup", "IndexHashInit", "IndexHashEnd", "OneShot"}
+ OpNames = {"Init", "CodeSome", "CodeAll", "Update", "End"}
 ACTION_CONSTRAINT Emit
 CHECK_DEADLOCK FALSE
